@@ -385,7 +385,7 @@ def check_any_scalar(case: str, ctx: Ctx) -> None:
 
 
 def misc_cases(shard: int, nshards: int) -> t.Iterator[t.Any]:
-    for (i, c) in enumerate([*ANY_SCALAR, 'mapping-not-subclass', 'mapping-not-parameterised', 'global-not-for-int', 'global-before-sequence', 'global-after-protocol',
+    for (i, c) in enumerate([*ANY_SCALAR, 'enum-values:call', 'enum-values:class', 'mapping-not-empty-tuple', 'mapping-not-subclass', 'mapping-not-parameterised', 'global-not-for-int', 'global-before-sequence', 'global-after-protocol',
                              'global-before-builtin-list', 'global-before-builtin-dict', 'global-before-builtin-tuple', 'global-nested-in-dataclass']):
         if i % nshards == shard:
             yield c
@@ -401,6 +401,59 @@ def check_misc(case: str, ctx: Ctx) -> None:
         check_any_scalar(case, ctx)
         return
     conv = _label_conv('C')
+    if case.startswith('enum-values'):
+        # "in both directions": a handler for the type of an enum's values (here: ints are kept as hex text) that is used to read
+        # a member's value is also used to write it - what the enum writes under the handlers is what it reads under them
+        import enum
+        from pane.converters import Converter
+
+        class HexInt(Converter):      # type: ignore
+            def expected(self, plural: bool = False) -> str:
+                return 'hex text'
+
+            def try_convert(self, val: t.Any) -> t.Any:
+                from pane.errors import ParseInterrupt
+                if not isinstance(val, str) or not val.startswith('0x'):
+                    raise ParseInterrupt()
+                return int(val, 16)
+
+            def collect_errors(self, val: t.Any) -> t.Any:
+                from pane.errors import WrongTypeError
+                return None if isinstance(val, str) and val.startswith('0x') else WrongTypeError(self.expected(), val)
+
+            def into_data(self, val: t.Any) -> t.Any:
+                return hex(val)
+        E = enum.Enum('E', {'A': 10, 'B': 11})
+        hx = {int: HexInt()}
+        if case.endswith('call'):
+            read = lambda d: pane.from_data(d, E, custom=hx)      # noqa: E731
+            write = lambda x: pane.into_data(x, E, custom=hx)     # noqa: E731
+            member = lambda x: x                                  # noqa: E731
+        else:
+            H = type('EnumHolder', (pane.PaneBase,), {'__annotations__': {'e': E}}, custom=hx)
+            read = lambda d: pane.from_data({'e': d}, H)          # noqa: E731
+            write = lambda x: pane.into_data(x, H)['e']           # noqa: E731
+            member = lambda x: x.e                                # noqa: E731
+        (k, r) = outcome(lambda: read('0xa'))
+        if k != 'ok' or member(r) is not E.A:
+            return      # the handler is not consulted for the values of an enum at all: nothing to be symmetric about
+        ctx.evaluated()
+        (k2, d) = outcome(lambda: write(r))
+        (k3, back) = outcome(lambda: read(d)) if k2 == 'ok' else ('-', None)
+        if k2 != 'ok' or d != '0xa' or k3 != 'ok' or member(back) is not E.A:
+            ctx.fail('both-directions', case, f"enum E(A=10, B=11) under a handler for int (hex text): '0xa' reads as E.A through the handler, but E.A is "
+                     f"written as {d!r} ({k2}), which reads back as {short(back, 60)} ({k3})")
+        return
+    if case == 'mapping-not-empty-tuple':
+        for (nm, T) in (('Tuple[()]', t.Tuple[()]), ('tuple[()]', tuple[()])):
+            (k, r) = outcome(lambda: pane.from_data([], T, custom={tuple: conv}))
+            if k != 'ok' or r != ():
+                ctx.fail('mapping-form-exact', 'empty-tuple', f"a mapping-form handler for tuple was used for the parameterised type {nm}: {r!r}")
+                return
+        (k, r) = outcome(lambda: pane.from_data([1], tuple, custom={tuple: conv}))
+        if k != 'ok' or r != Labeled('C', [1]):
+            ctx.fail('mapping-form-exact', 'bare-tuple', f"a mapping-form handler for tuple was not used for bare tuple: {r!r}")
+        return
     if case == 'mapping-not-subclass':
         class M1:
             pass
